@@ -4,6 +4,7 @@ void registerBase64(std::map<std::string, vh::Op>& ops);
 void registerMime(std::map<std::string, vh::Op>& ops);
 void registerNet(std::map<std::string, vh::Op>& ops);
 void registerHeaders(std::map<std::string, vh::Op>& ops);
+void registerCookie(std::map<std::string, vh::Op>& ops);
 int main()
 {
     std::map<std::string, vh::Op> ops;
@@ -11,5 +12,6 @@ int main()
     registerMime(ops);
     registerNet(ops);
     registerHeaders(ops);
+    registerCookie(ops);
     return vh::runLoop(ops);
 }
